@@ -141,6 +141,15 @@ NamesOK(ns, syms, keys) ==
      i # 0 => /\ (QNameOfK(ns, ns[i], keys) = <<"*">> \/ syms[k].qname = QNameOfK(ns, ns[i], keys))
               /\ (PlainNameOf(ns[i]) = <<"*">> \/ syms[k].name = PlainNameOf(ns[i]))
 
+\* with the source known (sns: the specification's own nodes of that document): package, imports, item and
+\* members are named as the SOURCE writes them (dotted names assembled from the identifiers, whatever lies between)
+NamesOKSrc(sns, syms) ==
+  \A k \in DOMAIN syms :
+     LET i == AtPath(sns, syms[k].p) IN
+     (i # 0 /\ sns[i].c # "type") =>
+        /\ (QNameOf(sns, sns[i]) = <<"*">> \/ syms[k].qname = QNameOf(sns, sns[i]))
+        /\ (PlainNameOf(sns[i]) = <<"*">> \/ syms[k].name = PlainNameOf(sns[i]))
+
 -----------------------------------------------------------------------------
 (* Extensions beyond the listed properties (DESIGN section 11): details / signature strings *)
 RECURSIVE TypeStr(_, _)
